@@ -32,12 +32,15 @@ def gen_targeted(rng, n):
     """Closed-loop scenarios that steer one connection into the clauses of C05/C06."""
     cases = []
     for i in range(n):
-        prof = ["rto_chain", "zero_window", "fast_retx", "fast_retx_sack", "bulk_window", "rto_then_ack"][i % 6]
+        prof = ["rto_chain", "zero_window", "fast_retx", "fast_retx_sack", "bulk_window", "rto_then_ack",
+                "sacked_tail_rto", "reorder_sack", "sacked_tail_rto", "sacked_tail_rto"][i % 10]
         isn = rng.choice([100, 65530, 65000, rng.below(65536)])
         cfg = cfg_line(nagle=rng.choice([0, 1]), max_retx=rng.choice([1, 2, 3, 5]),
-                       rwnd=rng.choice([1048576, 100000, 6000, 3000]), isn=isn,
-                       link=rng.choice([1500, 1500, 576, 1280]), probe_retx=rng.choice([0, 1, 2]),
+                       rwnd=rng.choice([1048576, 1048576, 100000, 6000, 3000]), isn=isn,
+                       link=rng.choice([1500, 1500, 576, 1280]), probe_retx=rng.choice([0, 0, 1, 2]),
                        syn_rtt=rng.choice([1_000_000, 100_000_000, 1_000_000_000]))
+        if prof == "sacked_tail_rto" and rng.below(2):
+            cfg[11] = 0           # mtu_probe_max_retransmissions = Some(0): a probe counts as expired at the first RTO
         cases.append({"cfg": cfg, "ops": [], "now": cfg[17], "prof": prof, "ts": 1, "peer": cfg[13], "w": 0,
                       "done": False, "stage": 0})
     rounds = 9
@@ -123,6 +126,41 @@ def gen_targeted(rng, n):
                 else:
                     ops.append(msg(last_sent)); ops.append("P")
                     adv(rng.choice([1_000_000, 300_000_000])); ops.append("P")
+            elif prof in ("sacked_tail_rto", "reorder_sack"):
+                def sack_hex(nb):
+                    bits = 0
+                    for k in range(min(nb, 63)):
+                        bits |= 1 << k
+                    return "%016x" % int.from_bytes(bits.to_bytes(8, "little"), "big")
+                cwnd = int(fp[21]); rw = int(fp[8])
+                fit = max(600, min(cwnd, rw if rw > 0 else cwnd))
+                if rnd <= 4 or inflight < 2:
+                    # acknowledge everything, then write no more than the window carries, so that the whole flight
+                    # (a few segments, the newest one often an MTU probe) is on the wire and the ring holds nothing else
+                    ops.append(msg(last_sent)); ops.append("P")
+                    write(max(600, fit * rng.choice([5, 7, 9, 10]) // 10)); ops.append("P")
+                elif prof == "sacked_tail_rto":
+                    # everything but the first outstanding segment is selectively acknowledged (the newest one is
+                    # often an MTU probe), then the retransmission timer fires: only the hole may be resent
+                    base = (snd_una - 1) % 65536
+                    nb = inflight - 1 if rng.below(2) else rng.choice([1, 1, 2])
+                    ops.append(msg(base, sack=sack_hex(nb))); ops.append("P")
+                    adv(rng.choice([300_000_000, 1_000_000_000, 3_000_000_000])); ops.append("P")
+                    if rng.below(2):
+                        # the peer repeats the very same ACK (a duplicate, or a pure window update): no new data is
+                        # acknowledged, single-segment mode must go on
+                        ops.append(msg(base, sack=sack_hex(nb), wnd=rng.choice([None, 100000, 3000]))); ops.append("P")
+                        write(rng.choice([1000, 5000])); ops.append("P")
+                    adv(rng.choice([600_000_000, 7_000_000_000])); ops.append("P")
+                    if rng.below(2):
+                        ops.append(msg(last_sent)); ops.append("P")
+                else:
+                    # plain reordering, no loss event: one or two segments are SACKed, then the cumulative ACK
+                    # arrives; the window must grow by the acknowledged bytes once
+                    base = (snd_una - 1) % 65536
+                    ops.append(msg(base, sack=sack_hex(rng.choice([1, 1, 2])))); ops.append("P")
+                    ops.append(msg(last_sent)); ops.append("P")
+                    write(rng.choice([20000, 40000])); ops.append("P")
             elif prof == "bulk_window":
                 wnd = rng.choice([528, 1000, 1056, 3000, 100000])
                 ops.append(msg(last_sent if rng.below(4) else (snd_una + inflight // 2 - 1) % 65536, wnd=wnd))
@@ -143,7 +181,7 @@ def gen(rng, tier):
     key = (rng.s, tier)
     if key not in _CACHE:
         lines = vsock_common.gen(rng, tier)
-        lines += gen_targeted(rng.fork("targeted"), 180 if tier == "quick" else 3000)
+        lines += gen_targeted(rng.fork("targeted"), 300 if tier == "quick" else 4000)
         _CACHE.clear()
         _CACHE[key] = lines
     return _CACHE[key]
@@ -179,7 +217,8 @@ def component(pred):
     return c
 
 
-PREDS = ("c05_window_ok", "c05_zero_window_ok", "c05_zero_window_strict", "c05_rto_single_ok", "c05_monitor_ok")
+PREDS = ("c05_window_ok", "c05_zero_window_ok", "c05_zero_window_strict", "c05_rto_single_ok", "c05_rto_exit_ok",
+         "c05_slow_start_ok", "c05_monitor_ok")
 # one pass over the traces evaluates all predicates (the driver reports the first one that fails,
 # by name); one component per predicate costs a full differential run each
 
